@@ -19,6 +19,7 @@ def spans(c):
                 sp.setdefault(fi, set()).add(k); k += 1; cuts.pop(0)
             sp.setdefault(fi, set()).add(k)
         if not f.blocks: sp.setdefault(fi, set()).add(k)
+        if cuts and cuts[0][0] == fi and cuts[0][1] == "end": k += 1; cuts.pop(0)      # a cabinet boundary between two folders
     return sp
 
 def listing(op):
@@ -64,13 +65,15 @@ def run(res, tier, replay):
         for order in orders:
             sc = scenario.Scn()
             for k, nm in enumerate(c.parts): sc.file("in%d.cab" % k, c.files[nm])
-            sc.op("cab_new")
+            sc.op("cab_new").op("ledger_now")
             for k in range(n): sc.op("cab_open", "c%d" % k, "in%d.cab" % k)
             for k in order:
                 if rng.random() < 0.5: sc.op("cab_append", "c%d" % (k - 1), "c%d" % k)
                 else: sc.op("cab_prepend", "c%d" % k, "c%d" % (k - 1))
             for k in range(n): sc.op("cab_list", "c%d" % k)
             sc.op("cab_extract_all", "c%d" % rng.randrange(n), "out", 50)
+            # close() through any member releases the whole set: everything allocated and opened since create is gone again
+            sc.op("cab_close_any", "c%d" % rng.randrange(n))
             scns.append(sc); meta.append(("order", s, order, c))
         # refusals on this set
         sc = scenario.Scn()
@@ -149,6 +152,9 @@ def run(res, tier, replay):
                 refl.setdefault(key, listing(lists[0]))
                 for o, m in zip(exs, c.members):
                     if o.kv.get("st") != "0" or (o.out or "") != m.data.hex(): why = "member %s extracts wrongly after joining in order %s (st=%s)" % (m.name, order, o.kv.get("st")); break
+                l0 = [o for o in t.ops if o.name == "ledger_now"]; ca = [o for o in t.ops if o.name == "cab_close_any"]
+                if not why and l0 and ca and (ca[0].kv.get("open_handles") != "0" or ca[0].kv.get("live_allocs") != l0[0].kv.get("live_allocs")):
+                    why = "close() through one member of the joined set left %s handle(s) open and %s allocation(s) (after create: %s)" % (ca[0].kv.get("open_handles"), ca[0].kv.get("live_allocs"), l0[0].kv.get("live_allocs"))
         elif kind == "refuse":
             before = [listing(o) for o in lists[:2]]; after = [listing(o) for o in lists[2:4]]
             js = [o for o in t.ops if o.name in ("cab_append", "cab_prepend")]
